@@ -266,12 +266,28 @@ func runeClass(s string) string {
 	return "astral"
 }
 
+// Thin > 0 makes Enumerate pass only every Thin-th point of the large
+// sections (the small ones are always complete): used for the package leg.
+var Thin int
+
+var largeSections = map[string]bool{"days": true, "ticks": true, "codepoints": true, "smalldatetime": true, "float32-all": true, "int16": true, "float64": true, "microseconds": true}
+
 // Enumerate calls fn for every grid point owned by this shard.
 func Enumerate(h *hlib.H, fn func(Val)) {
 	idx := 0
+	cnt := 0
 	mine := func() bool { idx++; return h.Mine(idx) }
 	emit := func(sec string, v Val) {
+		if Thin > 0 && largeSections[sec] {
+			cnt++
+			if cnt%Thin != 0 {
+				return
+			}
+		}
 		fn(v)
+		if Thin > 0 {
+			sec = "pkg-leg:" + sec
+		}
 		h.Section(sec, 1)
 	}
 	thorough := h.Thorough
